@@ -404,4 +404,25 @@ def checkS (loops : List LoopSpec) (fs : List Expr) : FStmt → Option (List Exp
       | some rb => if fitsType ty rb then some fs else none
       | none => none
 
+/-! ## the situation at every program point (what the `assert false` probe reads) -/
+
+mutual
+/-- the points strictly inside a statement: the blocks of an `if`, the body of a `while` -/
+def innerPoints (loops : List LoopSpec) (fs : Option (List Expr)) : FStmt → List (Option (List Expr))
+  | .ite c t e =>
+    points loops (fs.map (condFacts · c)) t ++
+      (if e.isSkip then [] else points loops (fs.bind (invFacts · c)) e)
+  | .while sp c body => points (sp :: loops) (fs.map (fun _ => bodyFacts sp c)) body
+  | _ => []
+/-- the situation at every point of a block, in source order: before each statement, inside
+it, …, at the end of the block (its final `skip`).  `none`: no situation (the point lies
+behind a `break` / `continue` / `return` — "unreachable code" —, or the checker rejects on
+the way).  The facts are threaded exactly as `checkS` threads them. -/
+def points (loops : List LoopSpec) (fs : Option (List Expr)) : FStmt → List (Option (List Expr))
+  | .seq a b =>
+    [fs] ++ innerPoints loops fs a ++
+      points loops (if a.endsFlow then none else fs.bind (checkS loops · a)) b
+  | _ => [fs]
+end
+
 end WuffsVerif.WFlow
